@@ -6,7 +6,8 @@ Open Scope string_scope.
 
 (* [FailAppend o kept]: the put or delete o, whose append failed after the timestamp had been read; [kept]: its whole
    record is still in the write buffer (the failing call was the final flush), otherwise what was buffered is lost or junk *)
-Inductive sop := Op (o : op) | Dump | Ls | Cat | DropHints | FailAppend (o : op) (kept : bool).
+(* [FailFsync o]: the put or delete o under sync=always, whose fsync failed behind the completed append *)
+Inductive sop := Op (o : op) | Dump | Ls | Cat | DropHints | FailAppend (o : op) (kept : bool) | FailFsync (o : op).
 
 Definition render_data (es : list entry) : bytes := List.concat (List.map enc_entry es).
 Definition render_hints (hs : list hint) : bytes := List.concat (List.map enc_hint hs).
@@ -56,6 +57,11 @@ Fixpoint run_script (c : cfg) (s : st) (r : option entry) (ops : list sop) : lis
   | [] => ["end"]
   | Op o :: ops' => let '(s', r', o', _) := step_r c s r o in show_out o' :: run_script c s' r' ops'
   | FailAppend o kept :: ops' => "err" :: run_script c (after_failed_append s (s_clock s + 1)%Z) (retained_of s o kept) ops'
+  | FailFsync o :: ops' =>
+    match (match o with OSet k v => failed_fsync true s k (Some v) | ODel k => failed_fsync true s k None | _ => RFail EBadOracle end) with
+    | ROk (s', _) => "err" :: run_script c s' None ops'
+    | _ => "panic" :: run_script c s r ops'
+    end
   | Dump :: ops' => show_dump s :: run_script c s r ops'
   | Ls :: ops' => ("ls " ++ show_ls false (s_dir s)) :: run_script c s r ops'
   | Cat :: ops' => ("cat " ++ show_ls true (s_dir s)) :: run_script c s r ops'
